@@ -1124,11 +1124,23 @@ func runC16(r *Run) {
 				c, ok := cond.(*ssa.Call)
 				return true, ok && c.Call.Value == ssa.Value(isTxParam)
 			})
+			// only the classification that is evaluated on the readOnly side: its true edge is "read-only frame, transaction method"
+			// (RunSetup may classify the method again for other refusals, e.g. the erc20 module account as origin)
+			var roTx []Edge
+			for _, e := range txTrue {
+				for _, re := range roEdges {
+					rb := re.From.Succs[re.Succ]
+					if rb == e.From || dominates(rb, e.From) {
+						roTx = append(roTx, e)
+						break
+					}
+				}
+			}
+			txTrue = roTx
 			if len(txTrue) == 0 {
 				okPath = false
 			}
 			for _, e := range txTrue {
-				// the classification is only evaluated on the readOnly side, so its true edge is "read-only frame, transaction method"
 				if w := (PathQuery{Fn: rs, StartBlock: e.From.Succs[e.Succ], Target: isSuccessExit}).Search(); w != nil {
 					okPath = false
 					witRO = P.witness(w)
